@@ -570,8 +570,11 @@ def run_config(P, mode, n, workers, aliases, preempt, window=None):
 PLAN = {
     # tier -> [(config, preemptions without failure, preemptions with a failing tensor)]
     "quick": [("par2w2", 2, 1), ("par3w2", 1, 1), ("par3w2-shared", 1, 1), ("shards2x2w4", 1, 0), ("shards3w3", 1, 0), ("shards2x2w6", 2, None, ["fit", 0], True)],
-    "thorough": [("par2w2", 3, 2), ("par3w2", 2, 1), ("par3w3", 2, 1), ("par3w2-shared", 2, 1), ("par4w2", 1, 1), ("par4w3-shared", 1, 1),
-                 ("shards2x2w4", 1, 1), ("shards2x2w6", 1, 0), ("shards3w3", 2, 1)],
+    # thorough: small configurations with full preemption semantics; larger ones delay-bounded (deviations from a
+    # round-robin default order, also at blocking points) with the position of the deviations sharded into windows
+    "thorough": [("par2w2", 3, 2), ("par3w2", 2, 1), ("par3w2-shared", 2, 1), ("par3w3", 1, 1), ("shards2x2w4", 1, 1), ("shards3w3", 1, 1),
+                 ("par3w3", 3, 2, None, True), ("par4w2", 2, 2, None, True), ("par4w3-shared", 2, 2, None, True),
+                 ("shards2x2w4", 3, 2, None, True), ("shards2x2w6", 3, 2, ["fit", 0, 5], True), ("shards3w3", 3, 2, None, True)],
 }
 
 
@@ -581,16 +584,15 @@ def keys_for(tier):
         c, p_ok, p_fail = entry[:3]
         _, n, _, aliases = CONFIGS[c]
         nobj = len(set(aliases)) if aliases else n
-        masks = entry[3] if len(entry) > 3 else range(1 << nobj)
+        masks = entry[3] if len(entry) > 3 and entry[3] is not None else range(1 << nobj)
+        windows = list(range(WINDOWS_LAST + 1)) if len(entry) > 4 and entry[4] else [None]
         for mask in masks:
-            if len(entry) > 4 and entry[4]:      # shard the preemption positions into windows
-                for win in range(WINDOWS_LAST + 1):
-                    keys.append((c, p_ok, "ok", mask, win))
-                continue
-            keys.append((c, p_ok, "ok", mask))
-            if p_fail is not None:
-                for f in range(nobj):
-                    keys.append((c, p_fail, f, mask))
+            for win in windows:
+                tail = () if win is None else (win,)
+                keys.append((c, p_ok, "ok", mask) + tail)
+                if p_fail is not None:
+                    for f in range(nobj):
+                        keys.append((c, p_fail, f, mask) + tail)
     return keys
 
 
